@@ -359,6 +359,11 @@ def sibling_rules(run, db):
     def subscript(v, idx, node):
         if isinstance(v, Sym) and isinstance(idx, Tup) and any(isinstance(x, Const) and x.v is None for x in idx.items):
             return v
+        # values at the single point x = ones(1), one row per order: [:, 0] keeps every order and takes the only sample
+        from ..core.interp import Slice as _Slice
+        full = lambda x: isinstance(x, _Slice) and all(isinstance(z, Const) and z.v is None for z in (x.lo, x.hi, x.step))
+        if isinstance(v, Sym) and isinstance(idx, Tup) and len(idx.items) >= 2 and full(idx.items[0]) and all(full(x) or (isinstance(x, Const) and x.v in (0, None)) for x in idx.items[1:]):
+            return v
         return orig_sub(v, idx, node)
     dom.subscript = subscript
     for k in (1, 2, 3, 4):
